@@ -502,7 +502,7 @@ def run_case(chk, I, case, mline, f07_known):
     if half_in and p >= 2:
         def half_agrees(got):
             for k, (fa, fb, g_) in enumerate(zip(got, refined, rough)):
-                if fa[2] != fb[2] or (g_[0] is None) != (fb[0] is None):
+                if fa[2] != fb[2]:
                     return False
                 if g_[0] is None:
                     if fa[0] is not None or fa[1] is not None:
